@@ -76,6 +76,9 @@ type c04Xfer struct {
 	obsRegistered bool
 	notifySent    bool
 	cancelled     bool
+	// the caller chose the token itself; while the transfer runs a second caller uses the same token by mistake
+	ownToken message.Token
+	intruder *Call
 }
 
 func c04Sizes(t *Tape, b int) int {
@@ -207,6 +210,8 @@ func c04RunOpt(e *Env, tr string, faults bool, audit bool) {
 			} else {
 				_ = w.SetResponse(codes.Content, message.TextPlain, bytes.NewReader([]byte("dereg")))
 			}
+		case "/sametoken":
+			_ = w.SetResponse(codes.Content, message.TextPlain, bytes.NewReader([]byte("sametoken")))
 		case "/oneway":
 		}
 	}))
@@ -295,11 +300,22 @@ func c04RunOpt(e *Env, tr string, faults bool, audit bool) {
 
 	start := func(x *c04Xfer) {
 		x.started = true
+		if x.kind == xUp && t.Chance(1, 2) {
+			x.ownToken = message.Token{0xa4, byte(x.nonce), 0x04}
+		}
 		x.call = e.NewCall(fmt.Sprintf("xfer%d", x.nonce), x.nonce, nil, 120*time.Second)
 		e.Logf("start transfer n=%d (%s)", x.nonce, c04KindNames[x.kind])
 		e.Start(x.call, func(ctx context.Context) (*pool.Message, error) {
 			switch x.kind {
 			case xUp:
+				if x.ownToken != nil {
+					m := apiA.AcquireMessage(ctx)
+					defer apiA.ReleaseMessage(m)
+					if err := m.SetupPost("/up", x.ownToken, message.AppOctets, bytes.NewReader(upBody(x)), QueryOpt(x.nonce)); err != nil {
+						return nil, err
+					}
+					return apiA.Do(m)
+				}
 				return apiA.(mux.Conn).Post(ctx, "/up", message.AppOctets, bytes.NewReader(upBody(x)), QueryOpt(x.nonce))
 			case xDown:
 				return apiA.Get(ctx, "/down", QueryOpt(x.nonce))
@@ -395,6 +411,25 @@ func c04RunOpt(e *Env, tr string, faults bool, audit bool) {
 				allDone = false
 				evs = append(evs, Event{Label: "start", W: 5, Do: func() { start(x) }})
 				continue
+			}
+			if x.intruder != nil && !x.intruder.Done() {
+				allDone = false
+			}
+			if !x.call.Done() && x.ownToken != nil && x.intruder == nil {
+				evs = append(evs, Event{Label: "same-token", W: 2, Do: func() {
+					// refused at once, or - when the upload happens to be over already - an ordinary small exchange
+					x.intruder = e.NewCall(fmt.Sprintf("sametoken%d", x.nonce), 50+x.nonce, nil, 30*time.Second)
+					e.Probe("token.reusedDuringTransfer")
+					e.Logf("a second caller issues a request with the token of transfer n=%d (%x)", x.nonce, x.ownToken)
+					e.Start(x.intruder, func(ctx context.Context) (*pool.Message, error) {
+						m := apiA.AcquireMessage(ctx)
+						defer apiA.ReleaseMessage(m)
+						if err := m.SetupGet("/sametoken", x.ownToken, QueryOpt(x.nonce)); err != nil {
+							return nil, err
+						}
+						return apiA.Do(m)
+					}, apiA.ReleaseMessage)
+				}})
 			}
 			if !x.call.Done() {
 				allDone = false
@@ -578,6 +613,12 @@ func c04RunOpt(e *Env, tr string, faults bool, audit bool) {
 		if err == nil && resp != nil && (resp.Code >= 0x80 || resp.Code == 0x5f) {
 			err = fmt.Errorf("exchange ended with response code %d.%02d", resp.Code>>5, resp.Code&31)
 			e.Probe("transfer.endedWithErrorResponse")
+			if resp.Code == 0x5f && !faults && !x.cancelled {
+				// Under network faults a 2.31 handed back to the caller is read as "did not complete" (relaxed oracle).
+				// With a fault-free network nothing stands in the way of the exchange: ending it with the peer's
+				// intermediate "continue" as the call's successful result is neither completion nor an error or timeout.
+				e.Violate("C04.R5", "ended-with-continue-as-its-result:"+name, "transfer n=%d (%s, %d bytes up): the call returned 2.31 Continue without an error on a fault-free network; the request handler received %d bodies", x.nonce, name, x.upSize, len(x.handlerBodies))
+			}
 		}
 		e.mu.Lock()
 		hb := x.handlerBodies
